@@ -436,3 +436,29 @@ PROPS["C14"] = dict(
     uncovered=["Display for Tag and the printed forms (fmt machinery)", "AttributeSelector text syntax and parse_selector",
                "dictionary keyword resolution in selectors (HashMap)"],
 )
+
+# ----------------------------------------------------------------------- C16
+_TSM = "encoding/src/transfer_syntax/mod.rs"
+PROPS["C16"] = dict(
+    level="proof",
+    units=[
+        K("C16.capability_queries", "ext", ["c16::c16_capability_queries"],
+          "TransferSyntax<D,R,W> built from any (byte order, VR mode, codec shape): is_fully_supported, can_decode_all, "
+          "can_decode_dataset, is_codec_free, is_unsupported, is_encapsulated_pixel_data, is_unsupported_pixel_encapsulation, "
+          "pixel_data_reader/writer presence equal the predicates of the statement over the codec shape (7 shapes x 4 modes)",
+          fns=[(_TSM, "is_fully_supported"), (_TSM, "can_decode_all"), (_TSM, "can_decode_dataset"), (_TSM, "is_unsupported"),
+               (_TSM, "is_unsupported_pixel_encapsulation"), (_TSM, "is_encapsulated_pixel_data"), (_TSM, "is_codec_free")]),
+        N("C16.registry",
+          "cp /repo/Cargo.lock /verif/witness/Cargo.lock && CARGO_TARGET_DIR=/verif/build/witness cargo run --offline -q --release "
+          "--manifest-path /verif/witness/Cargo.toml --bin c16_registry 2>&1 | grep -E '^(WITNESS|EXHAUSTIVE|error)' | tail -12",
+          "every registered transfer syntax (registry compiled with features native+deflate): UID lookup with and without trailing NULs/spaces "
+          "returns it, UIDs unique, only Implicit VR LE is implicit and only Explicit VR BE is big endian (observed on an encoded header), "
+          "decodable data sets have decoder and encoder, capability queries agree with the codec offered; decoder/encoder presence for the "
+          "four (byte order, VR mode) pairs",
+          bound="exhaustive over the 46 registered transfer syntaxes x 6 UID suffixes (finite registry; evaluation of compiled code, not a deductive proof)",
+          fns=[("transfer-syntax-registry/src/lib.rs", "get", r"impl\s+TransferSyntaxRegistryImpl"), (_TSM, "decoder_for"), (_TSM, "encoder_for")]),
+    ],
+    assumptions=["adapter types are unit types in the Kani unit: the queries inspect only the shape of the codec",
+                 "the registry content depends on cargo features; the native unit uses native+deflate"],
+    uncovered=["transfer syntaxes contributed through the inventory registry at link time", "other feature combinations of the registry crate"],
+)
